@@ -10,7 +10,7 @@ import (
 // one integer parameter l in the domain "l + [lo,hi] with congruence (m,r)" or an absolute
 // interval. Supports: const, + - with constants, * / % &^ & with constants, comparisons with
 // the parameter (branch refinement) and phi. Identities used: c*(x/c) = x - x%c and
-// x &^ (c-1) = x - x%c for power-of-two c, valid for x >= 0.
+// x &^ (c-1) = x - x%c for power-of-two c, valid for x >= 0; likewise x - x%c.
 
 type IntSummary struct {
 	ArgMin int64 // precondition: argument >= ArgMin
@@ -132,6 +132,14 @@ func summarizeIntFunc(fn *ssa.Function) *IntSummary {
 						o.r = ((a.r+c)%a.m + a.m) % a.m
 					}
 					return o
+				}
+				// x - x%c = c*(x/c)  for x >= 0
+				if x.Op == token.SUB && a.known && a.rel {
+					if rem, ok := x.Y.(*ssa.BinOp); ok && rem.Op == token.REM && rem.X == x.X {
+						if cc, ok := constInt(rem.Y); ok && cc > 0 {
+							return aval{known: true, rel: true, lo: a.lo - (cc - 1), hi: a.hi, m: cc, r: 0}
+						}
+					}
 				}
 			case token.QUO:
 				if cok && c > 0 && a.known && a.rel && a.lo == a.hi {
